@@ -1207,12 +1207,20 @@ def run_apis(ctx, jobs, deep=False):
 def error_cases(ctx):
     """signatures the generator must reject (KeyError), model = None; no emitted code involved"""
     jobs = []
-    for i, sigs in enumerate([["items.name"], ["name.x"], ["nosuch"], ["name, ,count"], ["item.nosuch"], ["tags.x"], ["name", "item.items.name"]]):
+    # paths through a repeated message field, through a map field (message-valued and scalar-valued, .key and .value), through a
+    # scalar, unknown names, an empty piece
+    for i, sigs in enumerate([["items.name"], ["name.x"], ["nosuch"], ["name, ,count"], ["item.nosuch"], ["tags.x"], ["name", "item.items.name"],
+                              ["name,by_key.value"], ["by_key.value.name"], ["labels.key"], ["labels.value,name"], ["item.by_key.key"],
+                              ["by_key.key"], ["name", "count,item.labels.value"]]):
         main = apigen.File("google/example/library/v1/library.proto", "google.example.library.v1", deps=list(apigen.STD_DEPS))
         it = main.message("Item")
         it.field("name", 1, "string").field("items", 2, ".google.example.library.v1.Item", repeated=True)
+        it.map_field("by_key", 3, "string", ".google.example.library.v1.Item")
+        it.map_field("labels", 4, "string", "string")
         rq = main.message("Req")
         rq.field("name", 1, "string").field("count", 2, "int32").field("tags", 3, "string", repeated=True).field("item", 4, it.fqn).field("items", 5, it.fqn, repeated=True)
+        rq.map_field("by_key", 6, "string", it.fqn)
+        rq.map_field("labels", 7, "int32", "string")
         svc = main.service("Library", host="library.example.com")
         svc.rpc("Get", rq.fqn, it.fqn, sigs=sigs)
         jobs.append((f"err{i}", apigen.request([main], parameter="transport=grpc"), 0))
@@ -1223,8 +1231,13 @@ def error_cases(ctx):
         a.model_defs()
         a.check_fields_mapping()
         ctx.case({"error_case": tag, "sigs": U.Index.signatures(method_table(a.idx)[0][2])}, nontrivial=True, feature=["rejected-signature"])
-        ctx.oblige(f"oracle: signature {U.Index.signatures(method_table(a.idx)[0][2])} is rejected at generation time", not f.get("ok"),
-                   "API.build succeeded", "T2")
+        sg = U.Index.signatures(method_table(a.idx)[0][2])
+        if f.get("ok"):
+            # a path through a repeated or map field, through a scalar, or to nothing has no request.<path> = value: it must be refused
+            ctx.violation(f"method signature {sg} is accepted at generation time although it goes through a repeated / map / scalar "
+                          f"field or names no field (flattened fields computed: "
+                          f"{[x['key'] for x in f['services']['Library']['methods'][0].get('flattened', [])]})",
+                          {"request_b64": apigen.req_b64(req), "rindex": 0, "tag": tag, "signatures": sg})
         runs.append(a)
     return runs
 
